@@ -1,8 +1,105 @@
-(* Properties_C02.v -- placeholder until TreeDBProofs.v lands: the statement that the model is non-trivial. *)
+(* Properties_C02.v -- exported laws of the ideal node database (TreeDB.v), the object every answer of the real
+   cgio layer is compared with.  They say that TreeDB really is "an ideal in-memory tree holding the same
+   operations": reads return the latest writes, every operation changes what it names and nothing else, child
+   lists keep creation order, a close/reopen is the identity, files do not influence each other.
+   Only statements closed by [exact]; Print Assumptions under each. *)
 From Coq Require Import ZArith List.
-From CgnsV Require Import TreeDB.
+From CgnsV Require Import ListX TreeDB TreeDBProofs.
 Import ListNotations.
 Local Open Scope Z_scope.
-Theorem C02_model_runs : fst (step_table false empty_table (OCreate 0 1 [65])) <> empty_table.
-Proof. vm_compute. discriminate. Qed.
-Print Assumptions C02_model_runs.
+
+Theorem C02_tables_stay_well_formed : forall pol t o, WFt t -> WFt (fst (step_table pol t o)).
+Proof. exact step_table_WF. Qed.
+Print Assumptions C02_tables_stay_well_formed.
+
+Theorem C02_read_after_write_all : forall t u d t',
+  op_write_all t u d = (t', ROk) -> op_read_all t' u = RData (map Some d).
+Proof. exact write_all_then_read. Qed.
+Print Assumptions C02_read_after_write_all.
+
+Theorem C02_read_after_write_block : forall t u b e d t',
+  op_write_block t u b e d = (t', ROk) ->
+  (forall r, find_node t u = Some r -> lenZ (n_data r) = node_bytes r) ->
+  op_read_block t' u b e = RData (map Some d) /\
+  forall r r', find_node t u = Some r -> find_node t' u = Some r' ->
+    forall i, (i < Z.to_nat ((b - 1) * dt_size (n_dt r)) \/ Z.to_nat (e * dt_size (n_dt r)) <= i)%nat ->
+      nth i (n_data r') None = nth i (n_data r) None.
+Proof. exact write_block_then_read. Qed.
+Print Assumptions C02_read_after_write_block.
+
+Theorem C02_local_ops_frame : forall t o u t' res, WFt t -> local_target o = Some u ->
+  step_table false t o = (t', res) ->
+  (forall v, v <> u -> find_node t' v = find_node t v) /\
+  map n_uid t' = map n_uid t /\
+  (forall p, map n_uid (children t' p) = map n_uid (children t p)) /\
+  (forall r r', find_node t u = Some r -> find_node t' u = Some r' ->
+                n_parent r' = n_parent r /\ n_name r' = n_name r /\ n_link r' = n_link r).
+Proof. exact local_op_frame. Qed.
+Print Assumptions C02_local_ops_frame.
+
+Theorem C02_queries_are_pure : forall pol t o, is_mutator o = false -> fst (step_table pol t o) = t.
+Proof. exact queries_pure. Qed.
+Print Assumptions C02_queries_are_pure.
+
+Theorem C02_create_appends : forall pol t p u nm t', step_table pol t (OCreate p u nm) = (t', ROk) ->
+  (forall v, v <> u -> find_node t' v = find_node t v) /\
+  find_node t' u = Some (mkN u p nm [] s_MT [] [] None) /\
+  children t' p = children t p ++ [mkN u p nm [] s_MT [] [] None] /\
+  (forall q, q <> p -> children t' q = children t q).
+Proof. exact create_frame. Qed.
+Print Assumptions C02_create_appends.
+
+Theorem C02_delete_removes_exactly_the_subtree : forall pol t p u t',
+  step_table pol t (ODelete p u) = (t', ROk) ->
+  let dead := descendants t u in
+  (forall v r, find_node t v = Some r -> ~ In v dead -> find_node t' v = Some r) /\
+  (forall v, In v dead -> find_node t' v = None) /\
+  (forall q, children t' q = filter (fun x => negb (existsb (Z.eqb (n_uid x)) dead)) (children t q)).
+Proof. exact delete_frame. Qed.
+Print Assumptions C02_delete_removes_exactly_the_subtree.
+
+Theorem C02_rename_in_place : forall t p u nm t', WFt t -> step_table false t (ORename p u nm) = (t', ROk) ->
+  (forall v, v <> u -> find_node t' v = find_node t v) /\
+  (forall q, map n_uid (children t' q) = map n_uid (children t q)) /\
+  (exists r, find_node t u = Some r /\
+             find_node t' u = Some (mkN u p nm (n_label r) (n_dt r) (n_dims r) (n_data r) (n_link r))).
+Proof. exact rename_frame. Qed.
+Print Assumptions C02_rename_in_place.
+
+Theorem C02_move_relinks_one_node : forall pol t p u np t', step_table pol t (OMove p u np) = (t', ROk) ->
+  (forall v, v <> u -> find_node t' v = find_node t v) /\
+  (exists r, find_node t u = Some r /\
+     let r' := mkN u np (n_name r) (n_label r) (n_dt r) (n_dims r) (n_data r) (n_link r) in
+     find_node t' u = Some r' /\
+     children t' np = filter (fun x => negb (n_uid x =? u)) (children t np) ++ [r'] /\
+     forall q, q <> np -> children t' q = filter (fun x => negb (n_uid x =? u)) (children t q)).
+Proof. exact move_frame. Qed.
+Print Assumptions C02_move_relinks_one_node.
+
+Theorem C02_reopen_is_identity : forall s f mode s1 s2,
+  close_file s f = (s1, ROk) -> open_file s1 f false mode 0 = (s2, ROk) ->
+  get_file (s_world s2) f = get_file (s_world s) f /\ get_mode (s_modes s2) f = mode /\
+  get_mode (s_pol s2) f = get_mode (s_pol s) f.
+Proof. exact reopen_identity. Qed.
+Print Assumptions C02_reopen_is_identity.
+
+Theorem C02_files_are_independent : forall evs s1 s2 f, view s1 f = view s2 f ->
+  run_for s1 evs f = run_for s2 (only f evs) f /\
+  view (final s1 evs) f = view (final s2 (only f evs)) f.
+Proof. exact interleaving_independent. Qed.
+Print Assumptions C02_files_are_independent.
+
+(* non-vacuity: a concrete history exercising create / dims / write / block write / delete / rename / move *)
+Example C02_example :
+  let t1 := fst (step_table false empty_table (OCreate 0 1 [65])) in
+  let t2 := fst (step_table false t1 (OCreate 0 2 [66])) in
+  let t3 := fst (step_table false t2 (ODims 1 [73; 52] [3])) in
+  let t4 := fst (step_table false t3 (OWriteAll 1 [1;0;0;0; 2;0;0;0; 3;0;0;0])) in
+  let t5 := fst (step_table false t4 (OWriteBlock 1 2 2 [9;9;9;9])) in
+  WFt t5 /\ snd (step_table false t5 (OReadAll 1)) =
+            RData (map Some [1;0;0;0; 9;9;9;9; 3;0;0;0]) /\
+  snd (step_table false t5 (OMove 0 2 1)) = ROk.
+Proof.
+  cbv zeta. split; [|split; vm_compute; reflexivity].
+  repeat apply step_table_WF. apply WFt_empty.
+Qed.
